@@ -71,7 +71,7 @@ HandlePP(R, n, m) ==
   IF (On("pp_first_wins") /\ HasPP(ns, m.v)) \/ (On("pp_sig") /\ ~m.sig) \/ (On("pp_leader") /\ m.s # LeaderM(ns.h, m.vm)) \/ m.ht # "PP" \/ ~m.canon
      \/ (m.v > 0 /\ "StandalonePP" \notin Dev) THEN R
   ELSE LET ok == n \in SeqToSet(m.okfor)
-           R1 == [R EXCEPT !.vals = Append(@, [blk |-> m.blk, ok |-> ok])]
+           R1 == [R EXCEPT !.vals = Append(@, [blk |-> m.blk, ok |-> ok, by |-> LeaderM(ns.h, m.vm)])]   \* by: the proposer named to the consumer
        IN IF ~ok THEN R1 ELSE ProcessPP(R1, n, m.v, m.x, m.s, m.blk)
 
 HandleP(R, n, m) ==
@@ -134,7 +134,7 @@ HandleNV(R, n, m) ==
                                /\ (On("nv_lock") => (m.blk # "-" /\ m.blk = m.votes[li].proof.ppx /\ m.pp.x = m.votes[li].proof.ppx)) )
        IN IF ~proofOK THEN R
           ELSE LET valok == n \in SeqToSet(m.okfor)
-                   R1 == IF noP THEN [R EXCEPT !.vals = Append(@, [blk |-> m.blk, ok |-> valok])] ELSE R
+                   R1 == IF noP THEN [R EXCEPT !.vals = Append(@, [blk |-> m.blk, ok |-> valok, by |-> LeaderM(ns.h, m.vm)])] ELSE R
                IN IF noP /\ ~valok THEN R1
                   ELSE IF HasPP(ns, m.pp.v) \/ ~m.pp.sig \/ m.pp.s # LeaderM(ns.h, m.vm) \/ m.pp.ht # "PP" \/ ~m.pp.canon THEN R1
                   ELSE ProcessPP([R1 EXCEPT !.ns.lastnv = m.v, !.ns.view = m.v], n, m.v, m.pp.x, m.pp.s, m.blk)
